@@ -44,6 +44,9 @@ HARNESSES += [
 import importlib.util as _ilu
 _sp = _ilu.spec_from_file_location('c16spec', os.path.join(os.path.dirname(os.path.abspath(__file__)), '..', 'C16', 'spec.py'))
 _c16 = _ilu.module_from_spec(_sp); _sp.loader.exec_module(_c16)
-HARNESSES += _c16.HARNESSES   # PopData limits / duplicate ids / verdict conjunction on the sliced checkPopData
+HARNESSES += _c16.HARNESSES
+_sp6 = _ilu.spec_from_file_location('c06spec', os.path.join(os.path.dirname(os.path.abspath(__file__)), '..', 'C06', 'spec.py'))
+_c06 = _ilu.module_from_spec(_sp6); _sp6.loader.exec_module(_c06)
+HARNESSES += [h for h in _c06.HARNESSES if h['name'] in ('h_split_short', 'h_split')]   # soundness side: a transaction shorter than the payload never 'contains' it (all byte strings incl. split descriptors)   # PopData limits / duplicate ids / verdict conjunction on the sliced checkPopData
 EXPLANATION = 'Stateless validation kernels are executed on symbolic transactions / headers and compared with independent specifications.'
 ASSUMPTIONS = ['secp256k1 signature verification, address derivation, SHA-256 and progpow cannot be encoded: in h_checkatv/h_checkvtb they are link-level oracles (arbitrary verdicts / uninterpreted collision-free hash), i.e. the claim is about how the verdicts are COMBINED and what they are asked about, not about the primitives themselves', 'split (chunked) embeddings are covered for memory safety in C06 only; checkATV/checkVTB wholes are decided modulo the oracles above', 'block hashes are preset']
